@@ -500,4 +500,12 @@ def r_opt_rules(ctx):
         raise P.AnalysisError(f"R-PB-TABLE: {cname}: kinds seen {seen}")
 
 
-RULES = [r_sched_guard, r_opt_rules, lambda ctx: task_rules.r_task_oblig(ctx, mode="implies", rule="R-SET-ASSERTIONS", obligations=False)]
+def r_work_amount_guard(ctx):
+    """an unscheduled optional task has nothing to produce: the work-amount assertion of the solver is under the task's
+    scheduled guard (the C02 rule R-WORK-AMOUNT decides the whole term, guard included)"""
+    from rules import resources
+    resources.r_work_amount(ctx)
+
+
+RULES = [r_sched_guard, r_opt_rules, lambda ctx: task_rules.r_task_oblig(ctx, mode="implies", rule="R-SET-ASSERTIONS", obligations=False),
+         r_work_amount_guard]
